@@ -146,8 +146,28 @@ def eval_text(text):
     return eval('(' + text + '\n)', ns)
 
 
-def parse_text(text):
-    return ast.dump(ast.parse('(' + text + '\n)', mode='eval'))
+def parse_text(text, unordered_sets=False):
+    tree = ast.parse('(' + text + '\n)', mode='eval')
+    if unordered_sets:
+        _SortSets().visit(tree)
+    return ast.dump(tree)
+
+
+class _SortSets(ast.NodeTransformer):
+    """set displays and the list inside frozenset([...]) / FrozensetSubclass([...]) in a canonical
+    order: the iteration order of a set depends on the hashes of its elements, which differ
+    between a value and the same value with comment wrappers on elements"""
+    def visit_Set(self, node):
+        self.generic_visit(node)
+        node.elts = sorted(node.elts, key=ast.dump)
+        return node
+
+    def visit_Call(self, node):
+        self.generic_visit(node)
+        name = ast.unparse(node.func).lower()
+        if 'frozenset' in name.split('.')[-1] and len(node.args) == 1 and isinstance(node.args[0], ast.List):
+            node.args[0].elts = sorted(node.args[0].elts, key=ast.dump)
+        return node
 
 
 def _tokens(text):
